@@ -276,6 +276,75 @@ def c13(tier):
                       ASSUME_COMMON)
 
 
+@reg("C14")
+def c14(tier):
+    from . import graphs as GR
+    from . import tlc, explore as X
+    run = P.Run("C14", tier, ["C14_"])
+    s = run.seed
+    defs = F.curated() + F.curated_ctx() + F.curated_retry() + F.graph_family(5000 + s, sizes(tier, 300, 4000), nmax=sizes(tier, 5, 7))
+    # (b) the composer's algorithm, model-checked against the reference graph for every definition
+    dpath = os.path.join(run.tmp, "gdefs.json")
+    with open(dpath, "w") as f:
+        json.dump([X.tla_def(d) for d in defs], f)
+    res = tlc.run("Compose", env={"DEFS_FILE": dpath}, workers=16, timeout=1500, workdir=run.tmp)
+    run.mc_states += res["distinct"]
+    run.mc_transitions += res["states"]
+    run.extra["compose_algorithm"] = {"defs": len(defs), "states": res["distinct"], "rc": res["rc"],
+                                      "invariant": "Terminated => graph = RefGraph(def); terminates (liveness)"}
+    if res["rc"] != 0:
+        if "is violated" in res["out"] or "Temporal properties were violated" in res["out"]:
+            run.extra["compose_algorithm"]["violated"] = True      # design-level counterexample; the code is judged below
+        else:
+            run.machinery.append("Compose tlc rc=%s\n%s" % (res["rc"], res["out"][-3000:]))
+    # (c) the real composer against the reference, under permutations and a serialise/restore round trip
+    gs, errs = GR.graph_groups(defs, nperm=sizes(tier, 6, 24), seed=s)
+    for e in errs[:3]:
+        run.machinery.append("compose harness: " + e["error"][:1500])
+    run.add_groups(gs)
+    return run.finish("model_checking",
+                      "accepted definitions with arbitrary fan-out/fan-in, back edges, several transitions between the "
+                      "same pair, engine commands, joins, retry: the composer's worklist algorithm model-checked "
+                      "against RefGraph; the real composer's graph compared with RefGraph under all (<= 4 tasks) or "
+                      "sampled permutations of the declaration order and across serialize/deserialize",
+                      ["TLC computes RefGraph(def) and the comparison (spec/RefGraph.tla, spec/Groups.tla)",
+                       "the mapping of criteria strings back to abstract conditions is the concretiser's inverse"])
+
+
+@reg("C15")
+def c15(tier):
+    from . import inspects as I
+    run = P.Run("C15", tier, ["C15_"])
+    s = run.seed
+    # soundness half: accepted definitions are conducted under many histories without an internal error
+    defs = F.curated() + F.random_family(2500 + s, sizes(tier, 60, 600), nmax=4, publish=True)
+    defs += F.curated_items() + F.curated_retry() + F.curated_ctx() + F.graph_family(2600 + s, sizes(tier, 40, 400), nmax=5)
+    run.add_jobs(jobs_for(defs, {"pause": 1, "cancel": 1, "sample": sizes(tier, 3, 5), "max_nodes": sizes(tier, 600, 3000)},
+                          s, ("yaql", "jinja"), tok="visit"))
+    run.add_jobs(jobs_for(F.curated() + F.curated_items()[:8], {"rerun": 1, "rerun_tasks": True, "sample": 3,
+                                                                "max_nodes": sizes(tier, 800, 4000)}, s))
+    # completeness half: single-fault mutants enumerated by TLC (spec/Inspect.tla)
+    hosts = F.curated()[:12] + F.curated_items()[:4] + F.curated_retry()[:4] + F.graph_family(2700 + s, sizes(tier, 10, 120), nmax=4)
+    faults, res = I.enumerate_faults(hosts, run.tmp)
+    run.mc_states += res["distinct"]
+    run.mc_transitions += res["states"]
+    if res["rc"] != 0 or not faults:
+        run.machinery.append("Inspect tlc rc=%s\n%s" % (res["rc"], res["out"][-2000:]))
+    gs, errs = I.inspect_groups(hosts, faults, seed=s, cap=sizes(tier, 4000, 60000))
+    for e in errs[:3]:
+        run.machinery.append("inspect harness: " + e["error"][:1500])
+    run.extra["faults_enumerated"] = len(faults)
+    run.add_groups(gs)
+    return run.finish("fault_enumeration",
+                      "soundness: accepted definitions (incl. cycles, commands, with-items, retry) conducted under "
+                      "sampled histories with pause/cancel/rerun, any exception other than a documented rejection is "
+                      "C15_internal_error; completeness: every single-fault mutant (undefined target, reserved name, "
+                      "no start task, broken grammar, unassigned variable in 4 reference forms x 2 languages) of the "
+                      "host definitions, enumerated by TLC, must be reported in the right category at the right position",
+                      ["broken-grammar corpus: 4 delimited strings per language (TLA+ does not model the expression grammars)",
+                       "over-reporting is allowed; only the presence of the expected entry is required"])
+
+
 @reg("C17")
 def c17(tier):
     from . import groups as G
